@@ -169,6 +169,32 @@ package scheduler
 //@ macro I3 = forall(d, ScheduledJob, implies(in(d, enq), forall(i, int, implies(0 <= i && i < len(d.consumers), in(d.consumers[i], enq)))))
 //@ macro I4 = forall(d, ScheduledJob, len(d.consumers) >= 0 && len(d.deps) >= 0)
 
+//
+// Structure: the subscription relation that links a waiting job's countdown
+// (remaining) to the consumers lists of its unfinished dependencies.
+//   S[c]            ghost set of dependency slots k of job c that still await the
+//                   completion of c.deps[k]
+//   slotOf[d][i]    the slot of consumer d.consumers[i] that this entry stands for
+//   entryOf[c][k]   the index in c.deps[k].consumers of the entry for slot k
+//   W               the set of enqueued jobs with remaining > 0
+//   disp, res       jobs sent to the workers / whose result was received
+//@ macro D1 = forall(c, ScheduledJob, implies(in(c, enq), c.remaining == card(S[c])))
+//@ macro D2 = forall(c, ScheduledJob, forall(k, int, implies(in(k, S[c]), in(c, enq) && 0 <= k && k < len(c.deps) && !c.deps[k].done)))
+//@ macro D3 = forall(c, ScheduledJob, forall(k, int, implies(in(c, enq) && 0 <= k && k < len(c.deps), in(k, S[c]) || c.deps[k].done)))
+//@ macro D4 = forall(d, ScheduledJob, forall(i, int, implies(in(d, enq) && !d.done && 0 <= i && i < len(d.consumers), in(slotOf[d][i], S[d.consumers[i]]) && d.consumers[i].deps[slotOf[d][i]] == d)))
+//@ macro D5 = forall(d, ScheduledJob, forall(i, int, forall(i2, int, implies(in(d, enq) && 0 <= i && i < i2 && i2 < len(d.consumers) && d.consumers[i] == d.consumers[i2], slotOf[d][i] != slotOf[d][i2]))))
+//@ macro D6 = forall(c, ScheduledJob, forall(k, int, implies(in(k, S[c]), 0 <= entryOf[c][k] && entryOf[c][k] < len(c.deps[k].consumers) && c.deps[k].consumers[entryOf[c][k]] == c && slotOf[c.deps[k]][entryOf[c][k]] == k)))
+//@ macro WDEF = forall(j, ScheduledJob, in(j, W) == (in(j, enq) && j.remaining > 0))
+//@ macro DISP = forall(j, ScheduledJob, implies(in(j, disp), in(j, enq) && j.remaining == 0)) && forall(j, ScheduledJob, implies(in(j, res), in(j, disp))) && forall(j, ScheduledJob, implies(in(j, enq), j.done == in(j, res) && j.remaining >= 0 && implies(j.done, j.remaining == 0)))
+//@ macro B2 = forall(i, int, implies(listlo(ready) <= i && i < listhi(ready), in(dataof(listat(ready, i)), enq) && ptr(ScheduledJob, dataof(listat(ready, i))).remaining == 0 && !in(dataof(listat(ready, i)), disp))) && forall(i, int, forall(i2, int, implies(listlo(ready) <= i && i < i2 && i2 < listhi(ready), dataof(listat(ready, i)) != dataof(listat(ready, i2)))))
+//   variants while the dependencies of the job being enqueued are processed (slots >= idx2 pending)
+//@ macro D3E = forall(c, ScheduledJob, forall(k, int, implies(in(c, enq) && 0 <= k && k < len(c.deps), in(k, S[c]) || c.deps[k].done || (c == job && k >= idx2))))
+//@ macro P1 = forall(k, int, implies(in(k, S[job]), k < idx2))
+//@ macro P2 = forall(d, ScheduledJob, forall(i, int, implies(in(d, enq) && 0 <= i && i < len(d.consumers) && d.consumers[i] == job, 0 <= slotOf[d][i] && slotOf[d][i] < idx2)))
+//   variants while the consumers of the finished job are notified (entries >= idx4 pending)
+//@ macro D2N = forall(c, ScheduledJob, forall(k, int, implies(in(k, S[c]), in(c, enq) && 0 <= k && k < len(c.deps) && (!c.deps[k].done || (c.deps[k] == job && entryOf[c][k] >= idx4)))))
+//@ macro D4N = forall(i, int, implies(idx4 <= i && i < len(job.consumers), in(slotOf[job][i], S[job.consumers[i]]) && job.consumers[i].deps[slotOf[job][i]] == job && entryOf[job.consumers[i]][slotOf[job][i]] == i))
+
 //@ func (*Scheduler).run
 //@   ghost nEnq int = 0
 //@   ghost nEnqDeps int = 0
@@ -178,6 +204,12 @@ package scheduler
 //@   ghost drained bool = false
 //@   ghost lastErr error = 0
 //@   ghost enq set[ref]
+//@   ghost disp set[ref]
+//@   ghost res set[ref]
+//@   ghost W set[ref]
+//@   ghost S map[ref]set[int]
+//@   ghost slotOf map[ref]map[int]int
+//@   ghost entryOf map[ref]map[int]int
 //@   ghost tk ref = 0
 //@   at call NewTicker 1 ghost tk = ret
 //@   requires s != nil
@@ -197,6 +229,15 @@ package scheduler
 //@   loop 1 invariant I1-consumers-non-nil: $I1
 //@   loop 1 invariant I2-deps-non-nil: $I2
 //@   loop 1 invariant I3-consumers-enqueued: $I3
+//@   loop 1 invariant [C01] D1-remaining-counts-open-subscriptions: $D1
+//@   loop 1 invariant [C01] D2-subscriptions-are-to-unfinished-dependencies: $D2
+//@   loop 1 invariant [C01] D3-every-unfinished-dependency-is-subscribed: $D3
+//@   loop 1 invariant [C01] D4-consumer-entries-are-open-subscriptions: $D4
+//@   loop 1 invariant [C01] D5-entries-of-one-consumer-have-distinct-slots: $D5
+//@   loop 1 invariant [C01] D6-every-subscription-has-its-entry: $D6
+//@   loop 1 invariant [C19] W-waiting-counts-jobs-with-open-subscriptions: $WDEF && waiting == card(W)
+//@   loop 1 invariant [C01,C12] dispatched-and-finished-jobs: $DISP
+//@   loop 1 invariant [C01] B2-ready-list-holds-undispatched-jobs-without-open-subscriptions: $B2
 //
 //   select
 //@   at select 1 arm 1 expect send
@@ -206,17 +247,22 @@ package scheduler
 //@   at select 1 arm 1 assert [C05,C03] L4-dispatch-arm-is-readyc: ch == s.readyc
 //@   at select 1 arm 1 assert [C03,C06] dispatch-gated-by-free-worker: ongoing < s.concurrency
 //@   at select 1 arm 1 assert [C01] guarantee-dispatch-sends-non-nil-front: sent != nil && listlen(ready) > 0 && dataof(listat(ready, listlo(ready))) == sent
+//@   at select 1 arm 1 assert [C01] dispatched-job-has-every-dependency-finished: forall(k, int, implies(0 <= k && k < len(sent.deps), sent.deps[k].done))
+//@   at select 1 arm 1 assert [C01] dispatched-job-was-never-dispatched-before: !in(sent, disp) && in(sent, enq)
 //@   at select 1 arm 1 ghost nDisp = nDisp + 1
+//@   at select 1 arm 1 ghost disp = add(disp, sent)
 //@   at select 1 arm 2 assert [C05] L4-enqueue-arm-is-enqueuec: ch == s.enqueuec && !closedSeen
 //@   at select 1 arm 2 assume rely-enqueue-fresh-zero-job: implies(recvok, recv != nil && !in(recv, enq) && recv.remaining == 0 && len(recv.consumers) == 0 && !recv.done && recv.err == nil && !recv.invalid)
 //@   at select 1 arm 2 assume rely-api-deps-enqueued-earlier: implies(recvok, len(recv.deps) >= 0 && forall(i, int, implies(0 <= i && i < len(recv.deps), recv.deps[i] != nil && in(recv.deps[i], enq))))
+//@   at select 1 arm 2 assert fresh-job-is-nobodys-consumer: implies(recvok, forall(d, ScheduledJob, forall(i, int, implies(in(d, enq) && 0 <= i && i < len(d.consumers), d.consumers[i] != recv))))
 //@   at select 1 arm 2 ghost nEnq = nEnq + ite(recvok, 1, 0)
 //@   at select 1 arm 2 ghost nEnqDeps = nEnqDeps + ite(recvok && len(recv.deps) > 0, 1, 0)
 //@   at select 1 arm 2 ghost enq = ite(recvok, add(enq, recv), enq)
 //@   at select 1 arm 2 ghost closedSeen = !recvok
 //@   at select 1 arm 3 assert [C05] L4-done-arm-is-donec: ch == s.donec
-//@   at select 1 arm 3 assume rely-worker-one-result-per-dispatched-job: nRes < nDisp && recv.Job != nil && in(recv.Job, enq)
+//@   at select 1 arm 3 assume rely-worker-one-result-per-dispatched-job: nRes < nDisp && recv.Job != nil && in(recv.Job, enq) && in(recv.Job, disp) && !in(recv.Job, res)
 //@   at select 1 arm 3 ghost nRes = nRes + 1
+//@   at select 1 arm 3 ghost res = add(res, recv.Job)
 //@   at select 1 arm 3 ghost lastErr = recv.Err
 //@   at select 1 arm 4 assert [C19] ticker-arm-only-with-emitter: emitter != nil
 //
@@ -232,11 +278,26 @@ package scheduler
 //   enqueue arm: loop over the new job's dependencies
 //@   loop 2 invariant remaining-counts-subscriptions: 0 <= job.remaining && job.remaining <= idx2 && idx2 <= len(job.deps)
 //@   loop 2 invariant $I1 && $I2 && $I3
+//@   loop 2 invariant [C01] D-structure-while-subscribing: $D1 && $D2 && $D3E && $D4 && $D5 && $D6 && $P1 && $P2
+//@   loop 2 invariant [C19] W-while-subscribing: $WDEF && waiting == card(W) - ite(in(job, W), 1, 0)
+//@   loop 2 invariant [C01,C12] dispatched-and-finished-jobs-while-subscribing: $DISP && !in(job, disp) && in(job, enq) && !job.done
+//@   loop 2 invariant [C01] B2-while-subscribing: $B2 && forall(i, int, implies(listlo(ready) <= i && i < listhi(ready), dataof(listat(ready, i)) != job))
+//@   at store consumers 1 ghost slotOf[target][len(target.consumers) - 1] = idx2
+//@   at store consumers 1 ghost entryOf[job][idx2] = len(target.consumers) - 1
+//@   at store remaining 1 ghost S[target] = add(S[target], idx2)
+//@   at store remaining 1 ghost W = add(W, target)
 //
 //   done arm: loop 4 notifies the consumers of the finished job
 //@   loop 4 invariant [C19] A1-in-notify-loop: pending == listlen(ready) + waiting + ongoing
 //@   loop 4 invariant [C19] A4-in-notify-loop: waiting <= nEnqDeps && listlen(ready) >= 0
 //@   loop 4 invariant L1-in-notify-loop: $L1
+//@   loop 4 invariant [C01] D-structure-while-notifying: $D1 && $D2N && $D3 && $D4 && $D4N && $D5 && $D6
+//@   loop 4 invariant [C19] W-while-notifying: $WDEF && waiting == card(W)
+//@   loop 4 invariant [C01,C12] dispatched-and-finished-jobs-while-notifying: $DISP && job.done && in(job, enq)
+//@   loop 4 invariant [C01] B2-while-notifying: $B2
+//@   at store remaining 2 assert [C01,C19] notified-consumer-had-an-open-subscription: val >= 0
+//@   at store remaining 2 ghost S[target] = remove(S[target], slotOf[job][idx4])
+//@   at store remaining 2 ghost W = ite(val == 0, remove(W, target), W)
 //
 //   exits
 //@   ensures@return1 [C07] failfast-exit-records-the-failure: !s.continueOnError && s.err == lastErr && s.err != nil
